@@ -29,6 +29,8 @@ structure Staged (s0 : State) (w : WS) (fresh0 : List (UUID × UUID)) (r : Run) 
   resSub : (r.reserved.map (·.lid)).Sublist (w.updated.map (·.1))
   remAct : ∀ g ∈ r.removedH, OldAct s0 g
   remSub : ∀ g ∈ r.removedH, g.lid ∈ w.removed.map (·.1)
+  /-- the images in both lists are `Known`: writing them back (priority rollback) keeps the state invariant -/
+  known : ∀ h ∈ r.reserved ++ r.removedH, Known s0 w fresh0 h
 
 /-- before `commitUpdatedNodes`: nothing reserved, nothing marked -/
 def J0 (s0 : State) (w : WS) (fresh0 : List (UUID × UUID)) (r : Run) : Prop :=
@@ -52,13 +54,14 @@ instance : Frame (J0 s0 w fresh0) where
 
 instance : Frame (Staged s0 w fresh0) where
   frame r r' h hr hb hf h1 h2 := by
-    refine ⟨h.rinv.frame hr hb hf, ?_, ?_, ?_, ?_, ?_, ?_⟩
+    refine ⟨h.rinv.frame hr hb hf, ?_, ?_, ?_, ?_, ?_, ?_, ?_⟩
     · intro x hx; rw [h1] at hx; rw [hr, hb]; exact h.res x hx
     · intro x hx; rw [h1] at hx; exact h.resAct x hx
     · intro x hx; rw [h1] at hx; exact h.resFresh x hx
     · rw [h1]; exact h.resSub
     · intro x hx; rw [h2] at hx; exact h.remAct x hx
     · intro x hx; rw [h2] at hx; exact h.remSub x hx
+    · intro x hx; rw [h1, h2] at hx; exact h.known x hx
 
 instance : Frame (Covered w) where
   frame r r' h _ _ _ h1 _ := by unfold Covered at *; rw [h1]; exact h
@@ -68,13 +71,14 @@ instance : Frame (SCov s0 w fresh0) where
 
 theorem staged_of_j0 {r : Run} (h : J0 s0 w fresh0 r) : Staged s0 w fresh0 r := by
   obtain ⟨a, b, c⟩ := h
-  refine ⟨a, ?_, ?_, ?_, ?_, ?_, ?_⟩
+  refine ⟨a, ?_, ?_, ?_, ?_, ?_, ?_, ?_⟩
   · intro x hx; rw [b] at hx; cases hx
   · intro x hx; rw [b] at hx; cases hx
   · intro x hx; rw [b] at hx; cases hx
   · rw [b]; exact List.nil_sublist _
   · intro x hx; rw [c] at hx; cases hx
   · intro x hx; rw [c] at hx; cases hx
+  · intro x hx; rw [b, c] at hx; cases hx
 
 /-! ### list facts -/
 
@@ -331,7 +335,11 @@ theorem staged_commitUpdated (pre : Pre s0 w fresh0) (pre2 : Pre2 s0 w fresh0) :
         refine Triple.bind (Q1 := fun _ r => Staged s0 w fresh0 r ∧ Covered w r) (Triple.modify _ (fun r hr => ⟨?_, hcov⟩))
           (fun _ => Triple.pure _ (fun _ h => ⟨h.1, fun _ => h.2⟩))
         obtain ⟨⟨hri, _, hrm⟩, hfacts⟩ := hr
-        refine ⟨hri, hfacts, ?_, ?_, hsub, ?_, ?_⟩
+        refine ⟨hri, hfacts, ?_, ?_, hsub, ?_, ?_, ?_⟩
+        rotate_right
+        · intro h hm
+          rw [show ({ r with reserved := res } : Run).removedH = r.removedH from rfl, hrm, List.append_nil] at hm
+          exact k1 h hm
         · intro h hm
           obtain ⟨_, p, hp, e1, e2⟩ := sh2 h hm
           have kp : Known s0 w fresh0 p.1 := pairs_known _ hs hk p hp
@@ -351,7 +359,7 @@ theorem staged_commitUpdated (pre : Pre s0 w fresh0) (pre2 : Pre2 s0 w fresh0) :
 theorem Staged.setRegs_other {r : Run} (h : Staged s0 w fresh0 r) (occs : List (Cls × Nat)) (tr : List Ev) (hs : List Handle)
     (hk : ∀ x ∈ hs, Known s0 w fresh0 x) (hd : ∀ x ∈ hs, ∀ g ∈ r.reserved, x.lid ≠ g.lid) :
     Staged s0 w fresh0 { r with occs := occs, trace := tr, s := r.s.setRegs hs } := by
-  refine ⟨⟨h.rinv.1.setRegs_known _ hk, h.rinv.2⟩, ?_, h.resAct, h.resFresh, h.resSub, h.remAct, h.remSub⟩
+  refine ⟨⟨h.rinv.1.setRegs_known _ hk, h.rinv.2⟩, ?_, h.resAct, h.resFresh, h.resSub, h.remAct, h.remSub, h.known⟩
   intro g hg
   show (r.s.setRegs hs).reg g.lid = some g ∧ (r.s.setRegs hs).blob g.inactive = true
   rw [State.setRegs_blob, State.setRegs_reg_of_not_mem r.s hs g.lid (fun x hx => hd x hx g hg)]
@@ -359,7 +367,7 @@ theorem Staged.setRegs_other {r : Run} (h : Staged s0 w fresh0 r) (occs : List (
 
 theorem Staged.addBlobs {r : Run} (h : Staged s0 w fresh0 r) (occs : List (Cls × Nat)) (tr : List Ev) (ids : List UUID) :
     Staged s0 w fresh0 { r with occs := occs, trace := tr, s := r.s.addBlobs ids } := by
-  refine ⟨⟨h.rinv.1.addBlobs _, h.rinv.2⟩, ?_, h.resAct, h.resFresh, h.resSub, h.remAct, h.remSub⟩
+  refine ⟨⟨h.rinv.1.addBlobs _, h.rinv.2⟩, ?_, h.resAct, h.resFresh, h.resSub, h.remAct, h.remSub, h.known⟩
   intro g hg
   show (r.s.addBlobs ids).reg g.lid = some g ∧ (r.s.addBlobs ids).blob g.inactive = true
   rw [State.addBlobs_reg, State.addBlobs_blob, (h.res g hg).2]
@@ -391,7 +399,12 @@ theorem staged_commitRemoved (pre : Pre s0 w fresh0) (pre2 : Pre2 s0 w fresh0) :
         obtain ⟨y, hy, rfl⟩ := List.mem_map.mp hx
         exact pre2.updRem _ (hr.resLid hg) (e ▸ hlid y hy)
       refine Triple.bind (Q1 := fun _ => Staged s0 w fresh0) (Triple.modify _ (fun r hr => ?_)) (fun _ => Triple.pure _ (fun _ h => h))
-      refine ⟨hr.rinv, hr.res, hr.resAct, hr.resFresh, hr.resSub, ?_, ?_⟩
+      refine ⟨hr.rinv, hr.res, hr.resAct, hr.resFresh, hr.resSub, ?_, ?_, ?_⟩
+      rotate_right
+      · intro x hx
+        rcases List.mem_append.mp hx with hx | hx
+        · exact hr.known x (List.mem_append_left _ hx)
+        · exact hmk x hx
       · intro x hx
         obtain ⟨g, hg, rfl⟩ := List.mem_map.mp hx
         exact oldAct_of_known pre (hmk _ hx) (pre2.remOld _ (hlid g hg))
